@@ -543,6 +543,21 @@ pub fn container_levels(src: &str) -> Vec<Vec<u8>> {
     out
 }
 
+/// every list in document order (outer before inner): (ordered?, first line, last non-blank line)
+pub fn list_spans(src: &str) -> Vec<(bool, usize, usize)> {
+    let mut out = vec![];
+    for (ev, r) in Parser::new_ext(src, md_options()).into_offset_iter() {
+        if let Event::Start(Tag::List(start)) = ev {
+            let end = r.end.min(src.len());
+            // the range of a list may include trailing blank lines: take its last non-blank character
+            let trimmed = src[r.start..end].trim_end_matches(|c: char| c.is_whitespace() || c == '>').len();
+            let last = r.start + trimmed.saturating_sub(1);
+            out.push((start.is_some(), line_of(src, r.start), line_of(src, last)));
+        }
+    }
+    out
+}
+
 pub fn outline(bs: &[B]) -> Outline {
     fn kind(b: &B) -> &'static str {
         match b {
